@@ -18,12 +18,12 @@ def run():
              f"tags:list, ok:bool) in every column order (150) x ranged group none/before/between/after/wide "
              f"(28 columns crossing Z/AA) x stop_on in ('blank all', 'blank first') x ladder/plain = 3000 layouts; "
              f"per layout {nv} sheets drawn from random.Random('c18:<seed>:<layout>:<variant>'): 0-2 unknown extra "
-             f"columns, optional blank-titled column at any position, group width 1-4, 0-2 leading blank rows, "
-             f"1-5 data rows with blank cells (None, '', ' '), ladder runs of 0-4 blank leading cells, end row and "
+             f"columns, 0-2 blank-titled (margin) columns at any position, group width 1-4, 0-2 leading blank rows, "
+             f"1-5 data rows with blank cells (None, '', ' '), ladder runs of 0-4 blank leading cells, under 'blank all' (60 % of the sheets with a margin column) 1-2 margin-note rows (blank in every titled column, text in a blank-titled column; in ladder sheets only in a column left of the table) followed by further data rows or last, end row and "
              f"0-2 rows of junk after it (or table ending with the sheet); rules: optional (default declared) on "
              f"present and missing columns, external (None rule and (None, None, default)), ranged dict-int / "
              f"dict-str / set-bool (optional, also with no column at all), attribute order independent of column "
-             f"order, class with or without a key attribute; plus two fixed sheets (the 29-column sheet of DESIGN.md Appendix A; a 1-column sheet read with an external first attribute). "
+             f"order, class with or without a key attribute; plus three fixed sheets (the 29-column sheet of DESIGN.md Appendix A; a 1-column sheet read with an external first attribute; a B..D table with margins A and E, a margin note next to a gap row and a key attribute). "
              f"Every sheet is read by the real iter_table and checked against the reference model; ladder sheets "
              f"are also re-read plain after filling in. non-trivial = >= 2 data rows and >= 1 optional, external "
              f"or ranged attribute",
@@ -35,7 +35,12 @@ def run():
         "titles are distinct; every required column is present; every cell that is read holds a value the "
         "attribute's reader converts (int / str / bool / list readers with their documented conversion tables; "
         "whitespace-only cells only in str-typed, unknown and blank-titled columns)",
-        "'blank all': no row up to the end row is blank in the titled columns but filled in a blank-titled one; "
+        "'blank all' ends the table at the first row in which every cell of the sheet row is blank (the rule's "
+        "name, _row_is_empty(row), doc of read_table); a row blank in the titled columns but filled in a "
+        "blank-titled margin column does not end it. For such a row of a plain sheet the entry may be None, an "
+        "object matching its blank cells, or absent (only 'the later rows are still produced, in order, with "
+        "matching values and origins' is demanded); in a ladder sheet it is an ordinary row whose cells all mean "
+        "'same as above' and it is never the first data row",
         "'blank first': first sheet cell and first titled cell of a row are blank together (both readings of "
         "'first' agree)",
         "ladder sheets: interior blank-titled columns are empty in data rows; a run of blank leading cells ends at "
@@ -44,12 +49,12 @@ def run():
         "filled; the comparison with the filled-in sheet is over the extent the ladder sheet defines",
         "a ladder value taken from a blank cell may be reported at any blank cell between the holding row and "
         "the object's row",
-        "class with a key attribute (_NUM_ID_ATTRS=1): key read from a present column, never blank "
-        "(XlsObject.construct documents None for blank keys)",
+        "class with a key attribute (_NUM_ID_ATTRS=1): key read from a present column, blank only in margin-note "
+        "rows (XlsObject.construct documents None for blank keys; an object there is a diagnostic)",
         "optional ranged attribute without any column: declared default == empty container of the reader, so "
         "'declared default' and 'conversion of no cells' coincide",
         "ranged group identity is demanded only up to 'one maximal run of unknown titled columns' when several "
         "runs exist (first-run choice is a diagnostic)",
-        f"bounded: {nv} sheets per layout, sheets of at most 5 data rows and 36 columns",
+        f"bounded: {nv} sheets per layout, sheets of at most 5 data rows and 37 columns",
     ]
     return finish(PROP, 'exploration', b.violations(), [], b.errors, cov, assumptions, t0)
